@@ -16,12 +16,22 @@ sys.path.insert(0, REPO_SRC)
 import specfuncs  # noqa: E402
 
 
+NS = {}
+
+
 def decode(v):
     if isinstance(v, dict):
         if "__bytes__" in v:
             return bytes(x & 0xff for x in v["__bytes__"])
         if "__tuple__" in v:
-            return tuple(decode(x) for x in v["__tuple__"])
+            items = tuple(decode(x) for x in v["__tuple__"])
+            cls = NS.get(v.get("nt")) if v.get("nt") else None
+            if cls is not None:
+                try:
+                    return cls(*items)
+                except Exception:
+                    pass
+            return items
         if "__obj__" in v:
             return v
         if "__set__" in v:
@@ -84,7 +94,15 @@ def main(path):
         print("REPRODUCED" if ok else "NOT-REPRODUCED")
         return
     target = rep["target"]
-    mod, cls, fn = resolve(target)
+    if rep.get("lemma"):
+        import textwrap
+        mod = importlib.import_module(rep["lemma"]["module"][:-3].replace("/", "."))
+        ns = dict(vars(mod))
+        exec(textwrap.dedent(rep["lemma"]["source"]), ns)
+        cls, fn = None, ns[target.split(":")[1]]
+    else:
+        mod, cls, fn = resolve(target)
+    NS.update(vars(mod))
     inputs = rep.get("inputs") or {}
     if "__error__" in inputs:
         print("no concrete input could be extracted from the solver model")
@@ -93,6 +111,10 @@ def main(path):
     args = {}
     selfobj = None
     for k, v in inputs.items():
+        if isinstance(v, dict) and "__obj__" in v and k != "self":
+            oc = NS.get(v["__obj__"])
+            args[k] = build_self(oc, v.get("fields", {})) if isinstance(oc, type) else Blank()
+            continue
         if k == "self":
             selfobj = build_self(cls, v.get("fields", {}))
         elif "." in k or k.startswith("_"):
